@@ -23,7 +23,7 @@ import shapes
 import vlib
 from checks.rt_common import model_check
 
-PROGS = {"quick": ["chain", "chain_rev", "split2", "map_dyn2", "subpipe", "split10", "map_dynkeys_split"],
+PROGS = {"quick": ["chain", "chain_rev", "split2", "map_dyn2", "subpipe", "split10", "map_dynkeys_split", "nestdyn_same_source"],
          "thorough": ["chain", "chain_rev", "split2", "split0", "split10", "map_dyn2", "map_dyn0", "map_keys", "subpipe", "diamond",
                       "dis_true", "dis_false", "preflight", "map_pipe", "structs", "map_dynkeys_split", "map_dynarr_split"]}
 SIGS = {"SIGKILL": 9, "SIGTERM": 15, "SIGINT": 2}
